@@ -29,8 +29,13 @@ CONSTANTS MaxLen,      \* data arrays of length 1..MaxLen
           HDepth,      \*   calls per history
           HThin,       \*   the LAST call of a history is thinned 1 : HThin (covering design)
           HBothW,      \*   TRUE: every data array with and without weights; FALSE: by design
-          FixedCache   \* TRUE: the cached sort index is always the stable argsort; FALSE: a
+          FixedCache,  \* TRUE: the cached sort index is always the stable argsort; FALSE: a
                        \* deviating object that skips the sort for plain counts (self-test)
+          FixedSel,    \* TRUE: the [min,max] selection is recomputed by every call; FALSE: a deviating
+                       \* object that caches it and stores the new limits before an empty window raises
+          ScaleNs,     \* scale cases: numbers of data (across and at the block boundaries of the engines)
+          SmallNs,     \*   numbers of data small enough to expand: the scale law is CHECKED on them
+          ScaleThin    \*   scale cases are thinned 1 : ScaleThin (covering design)
 
 VARIABLES phase, c, st, ob
 vars == <<phase, c, st, ob>>
@@ -112,6 +117,12 @@ ErrRes  == [err |-> "ValueError", hist |-> <<>>, hasrev |-> FALSE, rev |-> <<>>]
 CalcStatsCall == [op |-> "calc_stats", mode |-> "none", b |-> 0, hasmin |-> FALSE, min |-> 0,
                   hasmax |-> FALSE, max |-> 0, rev |-> FALSE, cs |-> TRUE]
 
+\* a call the object must reject (no bin specification at all), inside a history
+BadCall(mn, mx) == [op |-> "dohist", mode |-> "none", b |-> 0,
+                    hasmin |-> mn # Absent, min |-> IF mn = Absent THEN 0 ELSE mn,
+                    hasmax |-> mx # Absent, max |-> IF mx = Absent THEN 0 ELSE mx, rev |-> FALSE, cs |-> TRUE]
+BadCalls == {BadCall(Absent, Absent)} \cup {BadCall(mn, mx) : mn \in HMins, mx \in HMaxs}
+
 HSpecs == {<<"binsize", b>> : b \in HBinSizes} \cup {<<"nbin", b>> : b \in HNBins} \cup {<<"nperbin", b>> : b \in HNPer}
 
 \* the dohist calls tried at position k of a history on data x; the option calc_stats=
@@ -123,7 +134,8 @@ DoCalls(x, k) ==
       rev |-> rv, cs |-> (WSum(x, 1) + k + m[2] + B2I(rv) + B2I(mn # Absent)) % 2 = 0]
        : m \in HSpecs, mn \in HMins \cup {Absent}, mx \in HMaxs \cup {Absent}, rv \in BOOLEAN}
 
-CallHash(cl) == cl.b + (IF cl.mode = "binsize" THEN 0 ELSE IF cl.mode = "nbin" THEN 3 ELSE IF cl.mode = "nperbin" THEN 7 ELSE 17)
+CallHash(cl) == cl.b + (IF cl.mode = "binsize" THEN 0 ELSE IF cl.mode = "nbin" THEN 3 ELSE IF cl.mode = "nperbin" THEN 7
+                        ELSE IF cl.op = "dohist" THEN 13 ELSE 17)
                 + 2 * B2I(cl.rev) + 5 * B2I(cl.hasmin) + 11 * B2I(cl.hasmax)
 
 ObjNew ==
@@ -133,7 +145,7 @@ ObjNew ==
           /\ LET rs == RepsFor(n)
                  h  == WSum(x, 1) + 5 * n + B2I(hw)
              IN ob' = [x |-> x, hasw |-> hw, rep |-> rs[(h % Len(rs)) + 1], wrep |-> RepSeq[((h \div 2) % Len(RepSeq)) + 1],
-                       calls |-> <<>>, cache |-> <<>>, res |-> NoRes]
+                       calls |-> <<>>, cache |-> <<>>, lim |-> <<>>, sel |-> <<>>, res |-> NoRes]
     /\ phase' = "obj" /\ UNCHANGED <<c, st>>
 
 \* -- the pass over an explicitly given sorted index s (chist_pywrap.c / _dohist)
@@ -170,7 +182,8 @@ HByNum(w, nper) ==
         rev  |-> [k \in 1..(nb + 1 + n) |-> IF k <= nb THEN nb + 1 + (k - 1) * nper
                                              ELSE IF k = nb + 1 THEN nb + 1 + n ELSE w[k - nb - 1] - 1]]
 
-\* -- one call on the object (Binner.dohist / calc_stats)
+\* -- one call on the object (Binner.dohist / calc_stats).  A rejected call (empty window, no bin
+\*    specification) is a stutter step on everything later calls read: sort index, selection.
 HApply(o, cl) ==
     IF cl.op = "calc_stats" THEN [o EXCEPT !.calls = Append(@, cl)]          \* hist / rev untouched
     ELSE LET x      == o.x
@@ -180,13 +193,18 @@ HApply(o, cl) ==
                        ELSE IF srt THEN VStableArgsort(x) ELSE [i \in 1..Len(x) |-> i]
              lo     == IF cl.hasmin THEN cl.min ELSE IF srt THEN x[cache2[1]] ELSE VSeqMin(x)
              hi     == IF cl.hasmax THEN cl.max ELSE IF srt THEN x[cache2[Len(x)]] ELSE VSeqMax(x)
-             w      == SelectSeq(cache2, LAMBDA j : lo <= x[j] /\ x[j] <= hi)
+             where  == cl.hasmin \/ cl.hasmax
+             reuse  == ~FixedSel /\ where /\ o.lim = <<lo, hi>>
+             w      == IF reuse THEN o.sel ELSE SelectSeq(cache2, LAMBDA j : lo <= x[j] /\ x[j] <= hi)
+             lim2   == IF ~FixedSel /\ where THEN <<lo, hi>> ELSE o.lim       \* deviating: stored BEFORE the raise
+             sel2   == IF ~FixedSel /\ where /\ w # <<>> THEN w ELSE o.sel
              cc     == [x |-> x, mode |-> cl.mode, b |-> cl.b, hasmin |-> TRUE, min |-> lo, hasmax |-> TRUE, max |-> hi]
              res    == IF w = <<>> THEN ErrRes
+                       ELSE IF cl.mode = "none" THEN ErrRes
                        ELSE IF cl.mode = "nperbin" THEN HByNum(w, cl.b)
                        ELSE IF ~Runnable(cc) THEN SkipRes
                        ELSE HPassRun(cc, w, cl.rev \/ o.hasw)
-         IN [o EXCEPT !.calls = Append(@, cl), !.cache = cache2, !.res = res]
+         IN [o EXCEPT !.calls = Append(@, cl), !.cache = cache2, !.lim = lim2, !.sel = sel2, !.res = res]
 
 \* covering design: only the LAST call of a history is thinned
 ThinOK(o, cl) ==
@@ -196,7 +214,7 @@ ThinOK(o, cl) ==
 
 ObjCall ==
     /\ phase = "obj" /\ Len(ob.calls) < HDepth
-    /\ \E cl \in DoCalls(ob.x, Len(ob.calls) + 1) \cup {CalcStatsCall} :
+    /\ \E cl \in DoCalls(ob.x, Len(ob.calls) + 1) \cup {CalcStatsCall} \cup BadCalls :
           /\ ThinOK(ob, cl)
           /\ ob' = HApply(ob, cl)
     /\ UNCHANGED <<phase, c, st>>
@@ -204,14 +222,69 @@ ObjCall ==
 \* enumeration only: the same histories without running the mechanism (export run)
 ObjCallX ==
     /\ phase = "obj" /\ Len(ob.calls) < HDepth
-    /\ \E cl \in DoCalls(ob.x, Len(ob.calls) + 1) \cup {CalcStatsCall} :
+    /\ \E cl \in DoCalls(ob.x, Len(ob.calls) + 1) \cup {CalcStatsCall} \cup BadCalls :
           /\ ThinOK(ob, cl)
           /\ ob' = [ob EXCEPT !.calls = Append(@, cl)]
     /\ UNCHANGED <<phase, c, st>>
 
-Next == ChooseData \/ ChooseSpec \/ Begin \/ Step \/ Fill \/ ObjNew \/ ObjCall
+\* ---- scale cases ---------------------------------------------------------------------------------
+\* few distinct values 1..k, value j repeated mult[j] times, in three arrangements; numbers of data
+\* across and at the block boundaries; bin specifications that give one / two values per bin, and a
+\* top value with index nbin (not counted).  Hist.tla (HSFailing) fixes the result through the law.
+ScaleSchemes == {"equal", "tail", "head", "maxone"}
+ScaleArrs    == {"blocks", "rblocks", "cyclic"}
+Mults(n, k, sch) ==
+    IF sch = "equal" THEN [j \in 1..k |-> (n \div k) + (IF j = 1 THEN n % k ELSE 0)]
+    ELSE IF sch = "tail" THEN [j \in 1..k |-> IF j = k THEN n - (k - 1) ELSE 1]
+    ELSE IF sch = "head" THEN [j \in 1..k |-> IF j = 1 THEN n - (k - 1) ELSE 1]
+    ELSE [j \in 1..k |-> IF j = k THEN 1 ELSE ((n - 1) \div (k - 1)) + (IF j = 1 THEN (n - 1) % (k - 1) ELSE 0)]
+ScaleCases(Ns) ==
+    {[vals |-> [j \in 1..k |-> j], mult |-> Mults(n, k, sch), arr |-> ar, mode |-> m[1], b |-> m[2],
+      hasmin |-> lm[1] # Absent, min |-> IF lm[1] = Absent THEN 0 ELSE lm[1],
+      hasmax |-> lm[2] # Absent, max |-> IF lm[2] = Absent THEN 0 ELSE lm[2]]
+        : n \in Ns, k \in {2, 3, 4}, sch \in ScaleSchemes, ar \in ScaleArrs,
+          m \in {<<"binsize", 1>>, <<"binsize", 2>>, <<"nbin", 1>>, <<"nbin", 2>>, <<"nbin", 3>>},
+          lm \in {<<Absent, Absent>>, <<2, Absent>>, <<Absent, 3>>, <<Absent, 2>>}}
+ScaleN(sc) == VSum(sc.mult)
+ScaleHash(sc) == ScaleN(sc) + 3 * Len(sc.vals) + 5 * sc.mult[1] + 7 * sc.b + (IF sc.mode = "nbin" THEN 11 ELSE 0)
+                 + (IF sc.arr = "blocks" THEN 0 ELSE IF sc.arr = "rblocks" THEN 13 ELSE 29)
+                 + (IF sc.hasmin THEN 17 ELSE 0) + (IF sc.hasmax THEN 19 + sc.max ELSE 0)
 
-NextExport == ChooseData \/ ChooseSpec \/ ObjNew \/ ObjCallX    \* enumeration only (export run)
+ChooseScale ==
+    /\ phase = "start"
+    /\ \E sc \in ScaleCases(ScaleNs \cup SmallNs) :
+          /\ \A j \in DOMAIN sc.mult : sc.mult[j] >= 1
+          /\ HSRunnable(sc)
+          /\ ScaleN(sc) \in SmallNs \/ ScaleHash(sc) % ScaleThin = 0
+          /\ c' = sc
+    /\ phase' = "scale" /\ UNCHANGED <<st, ob>>
+
+\* the data of a (small) scale case written out
+RECURSIVE Rep(_, _), Cyc(_, _, _)
+Rep(v, m) == IF m = 0 THEN <<>> ELSE <<v>> \o Rep(v, m - 1)
+Cyc(vals, rem, j) ==                       \* round robin over the values that are left
+    IF VSum(rem) = 0 THEN <<>>
+    ELSE IF rem[j] = 0 THEN Cyc(vals, rem, (j % Len(vals)) + 1)
+    ELSE <<vals[j]>> \o Cyc(vals, [rem EXCEPT ![j] = @ - 1], (j % Len(vals)) + 1)
+RECURSIVE Blocks(_, _, _)
+Blocks(vals, mult, j) == IF j > Len(vals) THEN <<>> ELSE Rep(vals[j], mult[j]) \o Blocks(vals, mult, j + 1)
+RECURSIVE RBlocks(_, _, _)
+RBlocks(vals, mult, j) == IF j = 0 THEN <<>> ELSE Rep(vals[j], mult[j]) \o RBlocks(vals, mult, j - 1)
+Expand(sc) == IF sc.arr = "blocks" THEN Blocks(sc.vals, sc.mult, 1)
+              ELSE IF sc.arr = "rblocks" THEN RBlocks(sc.vals, sc.mult, Len(sc.vals))
+              ELSE Cyc(sc.vals, sc.mult, 1)
+\* run-length encoding by data value of a sequence of positions, as the harness projects a slice
+RECURSIVE Rle(_, _)
+Rle(x, s) == IF s = <<>> THEN <<>>
+             ELSE LET v == x[s[1]]
+                      n == CHOOSE m \in 1..Len(s) : (\A q \in 1..m : x[s[q]] = v) /\ (m = Len(s) \/ x[s[m + 1]] # v)
+                  IN <<[v |-> v, len |-> n, asc |-> \A q \in 1..(n - 1) : s[q] < s[q + 1]]>> \o Rle(x, SubSeq(s, n + 1, Len(s)))
+
+Next == ChooseData \/ ChooseSpec \/ Begin \/ Step \/ Fill \/ ObjNew \/ ObjCall \/ ChooseScale
+
+NextExport == ChooseData \/ ChooseSpec \/ ObjNew \/ ObjCallX \/ ChooseScale   \* enumeration only (export run)
+
+NextDeep == ObjNew \/ ObjCallX               \* long random histories (tlc -simulate)
 
 Spec == Init /\ [][Next]_vars
 
@@ -231,6 +304,30 @@ RefAccepted == (phase = "case" /\ Runnable(c)) =>
     /\ VSum(RefHist(c)) = Cardinality({j \in Limited(c) : Counted(c, j, BinOf(c, j))})
     /\ \A j \in Limited(c) : BinOf(c, j) >= 0
 
+\* the law behind the scale cases, on the small scope: split the data anywhere; over the same bins (the limits
+\* of the whole made explicit) the counts of the parts add up and every slice of the whole, restricted to a
+\* part, is that part's slice (second part shifted): the slices of the whole are the stable merges
+ConcatLaw == (phase = "case" /\ Runnable(c)) =>
+    \A p \in 1..(N(c) - 1) :
+        LET fix(xx) == [x |-> xx, mode |-> c.mode, b |-> c.b, hasmin |-> TRUE, min |-> Lo(c), hasmax |-> TRUE, max |-> Hi(c)]
+            ca == fix(SubSeq(c.x, 1, p))
+            cb == fix(SubSeq(c.x, p + 1, N(c)))
+        IN \A i \in 0..(NBin(c) - 1) :
+              LET m == Members(c, i) IN
+              /\ SelectSeq(m, LAMBDA j : j <= p) = Members(ca, i)
+              /\ SelectSeq(m, LAMBDA j : j > p) = [q \in DOMAIN Members(cb, i) |-> Members(cb, i)[q] + p]
+              /\ Len(m) = Len(Members(ca, i)) + Len(Members(cb, i))
+
+\* ... and its consequence used to judge the scale cases: on every scale case small enough to write out, the
+\* reference histogram and the run-length encoded reference slices are what HSFailing demands
+ScaleLaw == (phase = "scale" /\ ScaleN(c) \in SmallNs) =>
+    LET cx == [HSBase(c) EXCEPT !.x = Expand(c)] IN
+    /\ Len(cx.x) = ScaleN(c) /\ Runnable(cx) /\ NBin(cx) = NBin(HSBase(c))
+    /\ HSFailing(c, [err |-> "none", hist |-> RefHist(cx), hasrev |-> TRUE,
+                     revlen |-> NBin(cx) + 1 + VSum(RefHist(cx)),
+                     ptr |-> [i \in 1..(NBin(cx) + 1) |-> NBin(cx) + 1 + VSum(SubSeq(RefHist(cx), 1, i - 1))],
+                     runs |-> [i \in 1..NBin(cx) |-> Rle(cx.x, Members(cx, i - 1))]]) = {}
+
 \* the object: whatever was called before, what it holds after a call is an outcome the
 \* property allows for the last dohist call on the data; the cache is the stable argsort
 HistOf(o) == [x |-> o.x, hasw |-> o.hasw, calls |-> o.calls]
@@ -240,6 +337,7 @@ CacheSound == phase = "obj" => (ob.cache = <<>> \/ ob.cache = VStableArgsort(ob.
 
 \* ---- export -------------------------------------------------------------------------
 Export == /\ (DoExport /\ phase = "case") => PrintT(<<"CASE", ToJson(c)>>)
+          /\ (DoExport /\ phase = "scale" /\ ScaleN(c) \notin SmallNs) => PrintT(<<"SCALE", ToJson(c)>>)
           /\ (DoExport /\ phase = "obj" /\ Len(ob.calls) = HDepth) =>
                 PrintT(<<"HIST", ToJson([x |-> ob.x, hasw |-> ob.hasw, rep |-> ob.rep, wrep |-> ob.wrep, calls |-> ob.calls])>>)
 =============================================================================
